@@ -353,7 +353,9 @@ def run(module, cfg_text, env=None, workers=16, timeout=1800, extra=(), scratch=
     name = os.path.basename(path)[:-4]
     with open(os.path.join(wd, name + ".cfg"), "w") as f:
         f.write(cfg_text)
-    cmd = ["java", "-XX:+UseParallelGC", "-XX:ParallelGCThreads=4", "-Xmx" + heap, "-Xss64m", "-cp", JAR, "tlc2.TLC",
+    # TLC unpacks its standard modules into java.io.tmpdir (one /tmp/tlc-* directory per run): keep that in the scratch
+    cmd = ["java", "-XX:+UseParallelGC", "-XX:ParallelGCThreads=4", "-Xmx" + heap, "-Xss64m", "-Djava.io.tmpdir=" + wd,
+           "-cp", JAR, "tlc2.TLC",
            "-workers", str(workers), "-metadir", os.path.join(wd, "meta"), "-noGenerateSpecTE",
            "-config", name + ".cfg"]
     if simulate:
